@@ -637,9 +637,31 @@ def run_check(engine, tier, max_minimise=12):
     new_keys = [k for k in by_key if k not in known]
     known_seen = [k for k in by_key if k in known]
     exit_code = EXIT_OK
-    for k in known_seen:
-        print("KNOWN-FINDING: property=%s class=%s site=%s -- %s (seen in %d runs)" % (
-            prop, k[0], k[1], known[k].get("what", ""), len(by_key[k])))
+    # Every listed known finding is re-executed from its committed replay file, so that it is reported on every
+    # run (not only when the seeded campaign happens to hit it) and so that its disappearance is noticed too.
+    known_status = {}
+    for k, e in known.items():
+        st = "not replayed (no replay file listed)"
+        rp = e.get("replay")
+        if rp:
+            try:
+                _, kplan = load_replay(os.path.join(VERIF_DIR, rp))
+                status, res = fork_call(engine.execute, (kplan, False))
+                if status == "ok" and any(vkey(v) == k for v in res["violations"]):
+                    st = "reproduced from %s" % rp
+                elif status == "ok":
+                    st = "NOT reproduced from %s any more (repaired? then mark it fixed in known_findings.json)" % rp
+                else:
+                    st = "replay %s failed to run: %s" % (rp, status)
+            except Exception as ex:  # noqa: BLE001
+                st = "replay %s unreadable: %r" % (rp, ex)
+        known_status[k] = st
+        seen = len(by_key.get(k, ()))
+        if st.startswith("reproduced") or seen:
+            print("KNOWN-FINDING: property=%s class=%s site=%s -- %s [%s; seen in %d campaign runs]" % (
+                prop, k[0], k[1], e.get("what", ""), st, seen))
+        else:
+            print("KNOWN-FINDING-ABSENT: property=%s class=%s site=%s [%s; not seen in this campaign]" % (prop, k[0], k[1], st))
     replay_paths = []
 
     def _minimise_one(n, k):
@@ -684,7 +706,7 @@ def run_check(engine, tier, max_minimise=12):
     cov["sim_time_note"] = ("mir_eval reads no clock and has no timers; progress is counted in "
                             "scheduler events, not simulated seconds")
     cov["harness_errors"] = len(agg["harness"])
-    cov["known_findings_seen"] = [{"class": k[0], "site": k[1], "runs": len(by_key[k])} for k in known_seen]
+    cov["known_findings_seen"] = [{"class": k[0], "site": k[1], "runs": len(by_key.get(k, ())), "replay": known_status.get(k)} for k in known]
     cov["new_violation_keys"] = [{"class": k[0], "site": k[1], "runs": len(by_key[k])} for k in new_keys]
     cov["campaign_digest"] = hashlib.sha256(
         "".join("%d:%s;" % (r["run"], r["log"]) for r in agg["runs"]).encode()).hexdigest()[:24]
